@@ -130,6 +130,20 @@ def apply_step(cur, st, variant):
             new = cur.squeeze(tuple(int(v) for v in args['ax']))
     elif a == 'NwayProd':
         new = tensor.apply_tprod(_ops(args['Bs'], variant), cur)
+        # the same product as a chain of mode-k products of the full array, with the factor given as ndarray, sparse
+        # matrix or LinearOperator (modek_tprod is public and has a separate branch for the latter two)
+        try:
+            import scipy.sparse.linalg as spla
+            Y = np.asarray(tensor.asarray(cur), dtype=float)
+            for k, B in enumerate(args['Bs']):
+                if len(B) == 0:
+                    continue
+                M = np.array(B, dtype=float)
+                form = (variant + k) % 3
+                Y = tensor.modek_tprod(M if form == 0 else sp.csr_matrix(M) if form == 1 else spla.aslinearoperator(M), k, Y)
+            extra.append(('modek_tprod-chain', np.asarray(Y), np.asarray(tensor.asarray(new), dtype=float)))
+        except Exception as ex:
+            extra.append(('modek_tprod-chain exception %s' % type(ex).__name__, np.zeros(1), np.ones(1)))
     elif a == 'Pad':
         new = tensor.pad(cur, [None if len(p) == 0 else (int(p[0]), int(p[1])) for p in args['pw']])
     elif a == 'Ravel':
